@@ -32,6 +32,21 @@ func init() {
 		if os.Getenv("DBGERRDROP") != "" {
 			surveyErrDrop(p)
 		}
+		if os.Getenv("DBGERRUNUSED") != "" {
+			surveyErrUnused(p)
+		}
+		if os.Getenv("DBGGW") != "" {
+			surveyGlobalWrite(p)
+		}
+		if os.Getenv("DBGASM") != "" {
+			surveyAsmStubs(p)
+		}
+		if os.Getenv("DBGVALRECV") != "" {
+			surveyValueRecv(p)
+		}
+		if n := os.Getenv("DBGNAMED"); n != "" {
+			surveyNamed(p, n)
+		}
 		if os.Getenv("DBGOVW") != "" {
 			surveyOverwritten(p)
 		}
@@ -477,4 +492,113 @@ func surveyErrDrop(p *Program) {
 		}
 	}
 	fmt.Printf("ERRDROP total=%d\n", n)
+}
+
+// surveyErrUnused: calls of circl functions whose error result is never used.
+func surveyErrUnused(p *Program) {
+	errT := types.Universe.Lookup("error").Type()
+	n := 0
+	for f := range p.AllFuncs {
+		if f.Blocks == nil || !isCirclFunc(f) || f.Synthetic != "" {
+			continue
+		}
+		for _, b := range f.Blocks {
+			for _, in := range b.Instrs {
+				ci, ok := in.(ssa.CallInstruction)
+				if !ok {
+					continue
+				}
+				v := ci.Value()
+				if v == nil {
+					continue // go / defer
+				}
+				sig := ci.Common().Signature()
+				res := sig.Results()
+				if res.Len() == 0 || !types.Identical(res.At(res.Len()-1).Type(), errT) {
+					continue
+				}
+				// callee must be circl's
+				circl := false
+				if cal := ci.Common().StaticCallee(); cal != nil {
+					circl = isCirclFunc(cal)
+				} else {
+					for _, cal := range p.dynamicCallees(f, ci) {
+						if isCirclFunc(cal) {
+							circl = true
+						}
+					}
+				}
+				if !circl {
+					continue
+				}
+				n++
+				used := false
+				if res.Len() == 1 {
+					used = len(*v.Referrers()) > 0
+				} else {
+					for _, r := range *v.Referrers() {
+						if ex, ok := r.(*ssa.Extract); ok && ex.Index == res.Len()-1 && len(*ex.Referrers()) > 0 {
+							used = true
+						}
+					}
+				}
+				if !used {
+					fmt.Printf("ERRUNUSED %s: %s: %s\n", p.pos(ci.Pos()), fname(f), p.staticCalleeName(ci.Common()))
+				}
+			}
+		}
+	}
+	fmt.Printf("ERRUNUSED total=%d\n", n)
+}
+
+// surveyGlobalWrite: functions (outside init) whose mod-set contains an unsynchronised write to a
+// package-level variable.
+func surveyGlobalWrite(p *Program) {
+	mod := p.Mod()
+	for f := range p.AllFuncs {
+		if f.Blocks == nil || !isCirclFunc(f) || f.Synthetic != "" || f.Parent() != nil || f.Name() == "init" || strings.HasPrefix(f.Name(), "init#") {
+			continue
+		}
+		if f.Object() == nil || !f.Object().Exported() {
+			continue
+		}
+		for _, w := range mod.of(f) {
+			if strings.HasPrefix(w.Root, "global:") && !w.Sync && !strings.Contains(w.Root, "init$guard") {
+				fmt.Printf("GLOBALWRITE %s: %s writes %s via %s at %s\n", p.fnPos(f), fname(f), w.Root, w.Via, p.pos(w.Pos))
+			}
+		}
+	}
+}
+
+func surveyAsmStubs(p *Program) {
+	for f := range p.AllFuncs {
+		if f.Blocks != nil || !isCirclFunc(f) || f.Synthetic != "" {
+			continue
+		}
+		fmt.Printf("ASMSTUB %s %s\n", fname(f), f.Signature.String())
+	}
+}
+
+func surveyValueRecv(p *Program) {
+	n := 0
+	for f := range p.AllFuncs {
+		if f.Blocks == nil || !isCirclFunc(f) || f.Synthetic != "" {
+			continue
+		}
+		if f.Signature.Recv() != nil {
+			n++
+		}
+		if w := valueReceiverWrites(p, f); len(w) > 0 {
+			fmt.Printf("VALRECV %s: %s writes its value receiver at %v\n", p.fnPos(f), fname(f), w)
+		}
+	}
+	fmt.Printf("VALRECV methods=%d\n", n)
+}
+
+func surveyNamed(p *Program, name string) {
+	for f := range p.AllFuncs {
+		if f.Name() == name || strings.HasPrefix(f.Name(), name+"[") {
+			fmt.Printf("NAMED %q pkg=%s blocks=%v typeargs=%d synthetic=%q\n", f.String(), funcPkgPath(f), f.Blocks != nil, len(f.TypeArgs()), f.Synthetic)
+		}
+	}
 }
